@@ -322,7 +322,12 @@ func DrawKernelFile(t *rapid.T) []core.Source {
 	g := &ExprGen{T: t, Avoid: map[string]bool{}}
 	n := rapid.IntRange(1, 6).Draw(t, "nkernels")
 	var sb strings.Builder
-	sb.WriteString(KernelPreamble)
+	minimal := rapid.Bool().Draw(t, "minimalImports")
+	if !minimal {
+		sb.WriteString(KernelPreamble)
+	} else {
+		sb.WriteString(KernelDecls)
+	}
 	// one case in three instantiates several kernels of ONE checker family, so that same-named
 	// local declarations, repeated messages and per-checker caches interact within a file
 	sameFamily := rapid.IntRange(0, 2).Draw(t, "sameFamily") == 0
@@ -345,6 +350,11 @@ func DrawKernelFile(t *rapid.T) []core.Source {
 			}
 		}
 		sb.WriteString(RenderKernel(g, kr, k))
+	}
+	if minimal {
+		sb.WriteString(ShadowHelper(0))
+		body := sb.String()
+		return []core.Source{{Name: "k.go", Text: MinimalHeader("p", body) + "\n" + body}}
 	}
 	return []core.Source{{Name: "k.go", Text: sb.String()}}
 }
